@@ -22,3 +22,11 @@ add(RAW_Q, RAW_STEP, "quick", 3,
     "API with symbolic key/value/new capacity (resize argument: full usize range)")
 add(RAW_T, RAW_STEP, "thorough", 4,
     "RawLRU<u8,u8>: every state with cap = 3 and len <= 3, one operation of the full API", mem=3)
+
+SLRU_STEP = ["C01", "C02", "C03", "C05", "C07", "C12", "C13"]
+add(["h_slru::c11", "h_slru::ctor", "h_slru::c22n22", "h_slru::c22n12", "h_slru::c22n21"], SLRU_STEP, "quick", 3,
+    "SegmentedCache<u8,u8>: (probationary,protected) caps (1,1) with all 4 occupancies and (2,2) with the three "
+    "fullest occupancies; one operation (Cache trait, put_protected, peek_*/remove_lru_from_*, purge) with symbolic arguments",
+    mem=3)
+add(["h_slru::c12", "h_slru::c21", "h_slru::c22"], SLRU_STEP, "thorough", 3,
+    "SegmentedCache<u8,u8>: all 25 occupancies of caps in {1,2}x{1,2}; one operation with symbolic arguments", mem=3)
